@@ -290,7 +290,12 @@ func c03LiquidCase(cf *CaseFile, r *Rng, idx int, directed int) error {
 	amount := uint64(r.Range(5000, 20000000))
 	fee := uint64(r.Range(20, 900))
 	feeFail := false
-	if directed >= 0 {
+	if directed >= 3*c03NLLayouts {
+		// boundary: the fee eats the whole amount (zero-value output), blinded and explicit swap output
+		kind, chainID = directed%3, 1+directed%2
+		lay = []int{c03LLayExplicitSwap, c03LLaySwapFirst}[(directed/3)%2]
+		fee = amount
+	} else if directed >= 0 {
 		kind, lay = directed%3, (directed/3)%c03NLLayouts
 		chainID = 1 + (directed/3)%2
 	} else {
@@ -554,7 +559,7 @@ func chainhashFromBytes(b []byte) (string, error) {
 }
 
 func c03LiquidFamily(cf *CaseFile, r *Rng, n int) error {
-	for d := 0; d < 3*c03NLLayouts; d++ {
+	for d := 0; d < 3*c03NLLayouts+6; d++ {
 		if err := c03LiquidCase(cf, r, d, d); err != nil {
 			return err
 		}
